@@ -5,7 +5,7 @@ import random
 import hfreplay
 
 
-def replay(pyhf, backend, precision, chunk, props, seed):
+def replay(pyhf, backend, precision, chunk, props, seed, extra_batch=False):
     """chunk: list of JSON lines (cases of whole spec groups)."""
     rng = random.Random(seed)
     cache = {}
@@ -17,7 +17,7 @@ def replay(pyhf, backend, precision, chunk, props, seed):
         if k != last_key:
             out["specs"] += 1
             last_key = k
-        F, drift, st = hfreplay.check_case(pyhf, case, backend, precision, props, rng, cache)
+        F, drift, st = hfreplay.check_case(pyhf, case, backend, precision, props, rng, cache, extra_batch=extra_batch)
         out["n"] += 1
         if st.get("nmods", 0) >= 2 or st.get("npars", 0) >= 2:
             out["nontrivial"] += 1
